@@ -37,6 +37,9 @@ def run_batch(ctx, n, with_model=True):
         all_cases.append((prog, toks, texts, envs))
     # model: every variant, stage-wise (tokens / AST must equal across variants AND equal the real ones)
     flat = [{"prog": p, "text": t, "envs": envs} for p, toks, texts, envs in all_cases for t in texts]
+    for c in flat:
+        if rng.random() < 0.1:
+            c["prelude"] = rng.choice(['def e { /* todo return "a" weighted 1 }', 'def e { return "a" weighted 1 } /* notes', '/*'])
     progcases.run_cases(ctx, flat, check_spec=True, check_model=with_model)
     for prog, toks, texts, envs in all_cases:
         asts, outs = [], []
